@@ -36,6 +36,13 @@ claimed.update({
                      "unauthenticated callers never reach the signer; the per-cluster impersonation gate accepts only trusted callers whose pod exists with matching UID/SA and only identities running on the caller's node; "
                      "the OIDC authenticator never crashes on any verified subject and derives the identity only from a well-formed system:serviceaccount:ns:sa subject with a matching audience.",
                 note="Outside: X.509/ASN.1/PEM/crypto, token signature verification, TTL clamping (IstioCA.sign) unless listed in the evidence.", ref="§4 C09"),
+    "C13": dict(text="Endpoint index: sequential specification (per service and registry shard the index holds exactly the last report; nothing remains of removed shards/services/registries, service accounts included) "
+                     "for every operation sequence inside the bound, and linearizability of a report against a concurrent delete / registry removal / prune under every interleaving (<= 3 pre-emptions): the report is never lost.",
+                note="Outside: locality weighting, load balancing, network gateways, EDS generation from the index.", ref="§4 C13"),
+    "C18": dict(text="Renewal arithmetic of rotateTime in IEEE-754 doubles for every lifetime (1 s..10 y), grace ratio, jitter and random draw: delay >= 0, never later than expiry, strictly before when ratio-jitter >= 2^-10; "
+                     "GenerateSecret under every interleaving of two callers (<= 2 pre-emptions): one signing request, same matching key/chain for all, exactly one rotation per certificate, failures not sticky; "
+                     "rotation task clears/notifies once, ignores superseded certificates, changed root announced once.",
+                note="Outside: certificate bytes, SDS gRPC service, file watchers, the real delay queue.", ref="§4 C18"),
     "C17": dict(text="Every canonicalising sort (configs, DestinationRules, Services) returns the same sequence for all 6 input permutations of 3 objects with symbolic creation times (ties allowed) and symbolic names; "
                      "the comparator is antisymmetric/transitive/zero only on identical identity; EndpointShards.Keys is ordered for every map iteration order.",
                 note="Outside: protobuf marshalling, ordering inside the big generators, cross-process identity.", ref="§4 C17"),
